@@ -115,7 +115,8 @@ def run_input(case, R):
     from pb_bss.evaluation.sxr_module import input_sxr
     rng = gen.rng_of(case)
     K, D, T = case['K'], case['M'], case['T']
-    images = rng.standard_normal((K, D, T)) * 10 ** rng.uniform(-2, 2, size=(K, D, 1)) * case['scale']
+    span = 2 if rng.uniform() < 0.7 else 5          # level differences between the source images of up to 200 dB (a dominant and a barely audible source)
+    images = rng.standard_normal((K, D, T)) * 10 ** rng.uniform(-span, span, size=(K, D, 1)) * case['scale']
     noise = rng.standard_normal((D, T)) * 10 ** rng.uniform(-2, 1) * case['scale']
     ib, nb = images.copy(), noise.copy()
     rd = case['rd']
